@@ -198,7 +198,8 @@ End MapM.
 (* ---- l[-k:] ------------------------------------------------------------------ *)
 Lemma py_lastk_pos {A} (l : list A) p : py_lastk l (Zpos p) = suffix l (Pos.to_nat p).
 Proof.
-  unfold py_lastk, last_k, suffix, pick_index. f_equal. lia.
+  unfold py_lastk, last_k, suffix, pick_index. f_equal.
+  destruct (Nat.min_spec (Pos.to_nat p) (List.length l)) as [[? ->]|[? ->]]; lia.
 Qed.
 
 Lemma suffix_hd {A} (l : list A) k : hd_error (suffix l k) = pick l k.
@@ -211,7 +212,9 @@ Lemma pick_some {A} (l : list A) k : l <> [] -> (1 <= k)%nat -> exists x, pick l
 Proof.
   intros Hl Hk. unfold pick, pick_index.
   destruct (nth_error l (List.length l - Nat.min k (List.length l))) eqn:E; eauto.
-  apply nth_error_None in E. destruct l; [congruence|]. simpl in E. lia.
+  apply nth_error_None in E. destruct l as [|a l]; [congruence|].
+  remember (List.length (a :: l)) as n eqn:Hn. assert (1 <= n)%nat by (subst n; simpl; lia).
+  destruct (Nat.min_spec k n) as [[? Hm]|[? Hm]]; rewrite Hm in E; lia.
 Qed.
 
 Lemma suffix_nonempty {A} (l : list A) k : l <> [] -> (1 <= k)%nat -> suffix l k <> [].
@@ -224,7 +227,9 @@ Lemma suffix_last {A} (l : list A) k d : l <> [] -> (1 <= k)%nat -> last (suffix
 Proof.
   intros Hl Hk. unfold suffix, pick_index.
   assert (Hi : (List.length l - Nat.min k (List.length l) < List.length l)%nat).
-  { destruct l; [congruence|]. simpl. lia. }
+  { destruct l as [|a l]; [congruence|].
+    remember (List.length (a :: l)) as n eqn:Hn. assert (1 <= n)%nat by (subst n; simpl; lia).
+    destruct (Nat.min_spec k n) as [[? ->]|[? ->]]; lia. }
   revert Hi. generalize (List.length l - Nat.min k (List.length l))%nat. intro i.
   revert l Hl. induction i as [|i IH]; intros l Hl Hi; [reflexivity|].
   destruct l as [|x l]; [congruence|]. simpl in Hi.
